@@ -217,4 +217,3 @@ func jStruct(s, t, su, tu *pgen.Type, cfg Cfg, seen map[pairKey]bool, r *Result,
 		j(sf.T, tf.T, cfg, seen, r, depth+1, sp, tp)
 	}
 }
-
